@@ -110,4 +110,220 @@ structure Equiv (p q : Prov κ α) : Prop where
   blocked : p.blocked = q.blocked
   map : p.map.Perm q.map
 
+/-! ### any history (re-assigned keys included) -/
+
+/-- the largest size among the default circuit and the configured ones: what the reader recomputes, because
+`_max_circuit_size` is not written -/
+def trueMax (size : α → Nat) (d : α) (l : List (κ × α)) : Nat :=
+  l.foldl (fun M e => max M (size e.2)) (size d)
+
+/-- what EVERY history of calls keeps (a key may be re-assigned): the dict has distinct keys and the stored
+maximal size is an upper bound — not necessarily attained any more -/
+structure Inv (size : α → Nat) (p : Prov κ α) : Prop where
+  nodup : (keys p.map).Nodup
+  defLe : size p.default ≤ p.maxSize
+  mapLe : ∀ e ∈ p.map, size e.2 ≤ p.maxSize
+
+/-- `config_modes(self_modes)` of `AFFConfigurator`: the modes the configured circuit is placed on, as
+(first mode, number of modes); `last` / `first` are `self_modes[-1]` / `self_modes[0]`.  The simulator and the
+renderer place the configured circuit at the first of these modes. -/
+def configModes (offset : Int) (maxSize : Nat) (first last : Int) : Int × Nat :=
+  if 0 ≤ offset then (last + 1 + offset, maxSize) else (first + offset - maxSize + 1, maxSize)
+
 end PM.C15.FF
+
+/-
+  C15 — feed-forward configurators (`FFConfigurator`): a controlled circuit with variables and tables
+  `variable name → value`, one default table and one per measured state.
+
+  `perceval/components/feed_forward_configurator.py`
+    * `__init__` : `_linked_vars = controlled.vars` (a dict name → Parameter of every NON-FIXED parameter, i.e.
+                   every variable, with or without a value); `_check_configuration(default_config)`;
+                   `default_circuit = controlled.copy(); default_circuit.assign(default_config)`.
+                   `copy()` re-creates every parameter as `Parameter(name, value, …)`: a variable that holds a
+                   value becomes a FIXED parameter of the copy, so it is not among `copy.vars`, and
+                   `assign` (`vs[k].set_value(v)` for every entry) raises `KeyError(k)` for it.
+    * `_check_configuration(config)` : `len(config) != len(_linked_vars)` → `ValueError`; then the first name
+                   (dict order) that is not a linked variable → `NameError`.
+    * `add_configuration(state, config)` : `state.m != self.m` → `ValueError`; `_check_configuration`;
+                   `_configs[state] = config` (dict assignment).
+    * `configure(state)` : unmapped → the default circuit; mapped → `controlled.copy()` + `assign(table)`.
+  `_circuit_serialization.py` (`_serialize(FFConfigurator)`): name, offset, flag, `serialize_circuit(controlled)`,
+    `default_config` and `configs[str(state)]` as `VariableValues` = `map<string, float>`: every value is
+    converted to a 32-bit float (`rnd`).  A protobuf map has no order — neither the states nor the names in a table.
+  `_component_deserialization.py` (`deserialize_ff_configurator`): the constructor on the decoded circuit with
+    `name or None` (→ `DEFAULT_NAME = "FFC"`), `add_configuration` per entry, then the flag.
+
+  Abstract: the controlled circuit (`γ`, interface `Ctl`: names of `vars` and of `copy().vars`), its codec,
+  the keys (`κ` with `ksize` = number of modes of the state), the values (`V` with `rnd : V → V`; the driver
+  and `Lemmas/C15F32.lean` instantiate `V = Rat`, `rnd = F32.f32`).  Not modelled: the value-range check of
+  `Parameter.set_value` inside `assign` (phases are periodic: any finite value is accepted).
+-/
+namespace PM.C15.FFC
+
+open PM.C15.FF (assign keys)
+
+variable {κ γ δ V : Type} [DecidableEq κ]
+
+/-- a dict `name → value`, in insertion order -/
+abbrev Table (V : Type) := List (String × V)
+
+def names (t : Table V) : List String := t.map Prod.fst
+
+/-- which exception -/
+inductive Err where
+  | count                 -- `ValueError("Wrong parameter count …")`
+  | name (n : String)     -- `NameError("Parameter n does not exist in the controlled circuit")`
+  | key (n : String)      -- `KeyError(n)` from `assign`
+  | size                  -- `ValueError("Wrong size for detections …")`
+  | codec                 -- the controlled circuit cannot be read
+  deriving DecidableEq, Repr
+
+/-- what the object needs to know about its controlled circuit -/
+structure Ctl (γ : Type) where
+  /-- names of `circuit.vars`: every variable, holding a value or not -/
+  vars : γ → List String
+  /-- names of `circuit.copy().vars`: the variables that do not hold a value -/
+  free : γ → List String
+
+/-- `FFConfigurator` -/
+structure Cfgr (κ γ V : Type) where
+  m : Nat
+  offset : Int
+  name : String
+  ctrl : γ
+  linked : List String
+  defaultConfig : Table V
+  configs : List (κ × Table V)
+  blocked : Bool
+
+inductive Op (κ V : Type) where
+  | add (k : κ) (t : Table V)
+  | block
+
+/-- `_check_configuration` -/
+def checkConfig (linked : List String) (t : Table V) : Except Err Unit :=
+  if t.length ≠ linked.length then .error .count
+  else match (names t).find? (fun n => !linked.contains n) with
+    | some n => .error (.name n)
+    | none => .ok ()
+
+/-- `circuit.copy().assign(table)`: the first name that is not a variable of the copy raises `KeyError` -/
+def assignAll (free : List String) (t : Table V) : Except Err Unit :=
+  match (names t).find? (fun n => !free.contains n) with
+  | some n => .error (.key n)
+  | none => .ok ()
+
+/-- the constructor -/
+def Cfgr.new (I : Ctl γ) (m : Nat) (offset : Int) (name : String) (c : γ) (t : Table V) :
+    Except Err (Cfgr κ γ V) :=
+  (checkConfig (I.vars c) t).bind fun _ =>
+  (assignAll (I.free c) t).bind fun _ =>
+  .ok ⟨m, offset, name, c, I.vars c, t, [], false⟩
+
+/-- one call on the object -/
+def step (ksize : κ → Nat) (x : Cfgr κ γ V) : Op κ V → Except Err (Cfgr κ γ V)
+  | .block => .ok { x with blocked := true }
+  | .add k t =>
+    if ksize k ≠ x.m then .error .size
+    else (checkConfig x.linked t).bind fun _ => .ok { x with configs := assign k t x.configs }
+
+/-- a history of calls; stops at the first one that raises -/
+def runOps (ksize : κ → Nat) : Cfgr κ γ V → List (Op κ V) → Except Err (Cfgr κ γ V)
+  | x, [] => .ok x
+  | x, o :: t => (step ksize x o).bind fun x' => runOps ksize x' t
+
+/-- `configure(state)` as far as raising is concerned: an unmapped state returns the default circuit built
+by the constructor; a mapped one copies the controlled circuit and assigns the table -/
+def configureOk (I : Ctl γ) (x : Cfgr κ γ V) (k : κ) : Except Err Unit :=
+  match x.configs.find? (fun e => e.1 = k) with
+  | none => .ok ()
+  | some e => assignAll (I.free x.ctrl) e.2
+
+def mapT (f : V → V) (t : Table V) : Table V := t.map fun e => (e.1, f e.2)
+def mapC (f : V → V) (l : List (κ × Table V)) : List (κ × Table V) := l.map fun e => (e.1, mapT f e.2)
+
+/-- the message (`pb.FFConfigurator`); the tables in the order the reader will meet their entries -/
+structure PbCfgr (κ δ V : Type) where
+  name : String
+  offset : Int
+  block : Bool
+  ctrl : δ
+  defaultConfig : Table V
+  configs : List (κ × Table V)
+
+/-- the writer, for one particular order `wd` of the default table and `wc` of the states and of the names in
+every table; every value becomes a 32-bit float (`rnd`) -/
+def encCfgr (enc : γ → δ) (rnd : V → V) (x : Cfgr κ γ V) (wd : Table V) (wc : List (κ × Table V)) :
+    PbCfgr κ δ V :=
+  ⟨x.name, x.offset, x.blocked, enc x.ctrl, mapT rnd wd, mapC rnd wc⟩
+
+/-- the entries of the message, added one by one -/
+def readAll (ksize : κ → Nat) : Cfgr κ γ V → List (κ × Table V) → Except Err (Cfgr κ γ V)
+  | x, [] => .ok x
+  | x, (k, t) :: rest => (step ksize x (.add k t)).bind fun x' => readAll ksize x' rest
+
+/-- the reader -/
+def decCfgr (I : Ctl γ) (dec : δ → Option γ) (ksize : κ → Nat) (m : Nat) (w : PbCfgr κ δ V) :
+    Except Err (Cfgr κ γ V) :=
+  match dec w.ctrl with
+  | none => .error .codec
+  | some c =>
+    (Cfgr.new I m w.offset (if w.name = "" then "FFC" else w.name) c w.defaultConfig).bind fun x0 =>
+    (readAll ksize x0 w.configs).bind fun x1 =>
+    .ok (if w.block then { x1 with blocked := true } else x1)
+
+/-- same states in the same order, every table up to the order of its entries -/
+def TablesMatch : List (κ × Table V) → List (κ × Table V) → Prop
+  | [], [] => True
+  | e :: a, f :: b => e.1 = f.1 ∧ e.2.Perm f.2 ∧ TablesMatch a b
+  | _, _ => False
+
+/-- one wire order of the dict of tables: the states permuted, and the entries of every table permuted -/
+def CfgPerm (a b : List (κ × Table V)) : Prop :=
+  ∃ l : List (κ × Table V), l.Perm b ∧ TablesMatch a l
+
+/-- what the constructor and `add_configuration` establish and no later call (nor a `set_value` on a
+variable) breaks: dicts have distinct keys; every table passed `_check_configuration`; every state has `m` modes -/
+structure Valid (ksize : κ → Nat) (x : Cfgr κ γ V) : Prop where
+  keysNodup : (keys x.configs).Nodup
+  defNames : (names x.defaultConfig).Nodup
+  cfgNames : ∀ e ∈ x.configs, (names e.2).Nodup
+  defOk : checkConfig x.linked x.defaultConfig = .ok ()
+  cfgOk : ∀ e ∈ x.configs, checkConfig x.linked e.2 = .ok () ∧ ksize e.1 = x.m
+
+/-- same object up to the order of its dicts -/
+structure Equiv (x y : Cfgr κ γ V) : Prop where
+  m : x.m = y.m
+  offset : x.offset = y.offset
+  name : x.name = y.name
+  ctrl : x.ctrl = y.ctrl
+  linked : x.linked.Perm y.linked
+  blocked : x.blocked = y.blocked
+  defaultConfig : x.defaultConfig.Perm y.defaultConfig
+  configs : CfgPerm x.configs y.configs
+
+/-- what the round trip is expected to return: the decoded circuit `c'` and its variables, the default-name
+rule, and every table value passed through `rnd` -/
+def expected (I : Ctl γ) (rnd : V → V) (x : Cfgr κ γ V) (c' : γ) : Cfgr κ γ V :=
+  { x with name := if x.name = "" then "FFC" else x.name, ctrl := c', linked := I.vars c',
+           defaultConfig := mapT rnd x.defaultConfig, configs := mapC rnd x.configs }
+
+/-- every value in the tables of the object -/
+def AllValues (P : V → Prop) (x : Cfgr κ γ V) : Prop :=
+  (∀ e ∈ x.defaultConfig, P e.2) ∧ ∀ c ∈ x.configs, ∀ e ∈ c.2, P e.2
+
+/-! ### the concrete controlled circuit of the driver and of the `KeyError` witness -/
+
+/-- a controlled circuit reduced to its variables: (name, value it holds or `none`) -/
+abbrev VarList (V : Type) := List (String × Option V)
+
+def varCtl : Ctl (VarList V) where
+  vars c := c.map Prod.fst
+  free c := (c.filter fun e => e.2.isNone).map Prod.fst
+
+/-- `parameter.set_value(v)` on the variable `n` of the controlled circuit (the object shares the Parameter) -/
+def setValue (n : String) (v : Option V) (c : VarList V) : VarList V :=
+  c.map fun e => if e.1 = n then (e.1, v) else e
+
+end PM.C15.FFC
